@@ -41,10 +41,12 @@ theorem exKfdc_hef : ∀ p ∈ exKfdc.nf.ng.edgeFlow, p.1 ∈ exKfdc.nf.ng.g.edg
 theorem exKfdc_wmax : (expandWalkInput exKfdc).wmax false = 6 := by decide +kernel
 
 theorem exKfdc_hcap : ∀ x q, exKfdc.nf.ng.edgeFlow.lookup x = some q →
-    isSccEdge (expandWalkInput exKfdc).st.g (edgeEdge x) = true → q = (expandWalkInput exKfdc).wmax false := by
+    isSccEdge (expandWalkInput exKfdc).st.g (edgeEdge x) = true →
+      q.floor = ((expandWalkInput exKfdc).wmax false).floor := by
   intro x q hl
   have hall : ∀ p ∈ exKfdc.nf.ng.edgeFlow,
-      isSccEdge (expandWalkInput exKfdc).st.g (edgeEdge p.1) = true → p.2 = (expandWalkInput exKfdc).wmax false := by
+      isSccEdge (expandWalkInput exKfdc).st.g (edgeEdge p.1) = true →
+        p.2.floor = ((expandWalkInput exKfdc).wmax false).floor := by
     decide +kernel
   exact hall (x, q) (nxc_lookup_mem _ _ _ hl)
 
@@ -211,12 +213,13 @@ theorem node_internal : errcNodeInternal inp = .ok inpN := by
   | ok wi => rw [nxc_errcNodeInternal_ok hi]; rfl
 
 /-- `compute_edge_max_reachable_value` reads the copied attribute `9`: every SCC edge of the node branch is capped at
-`9`, where the explicit expansion caps it at the largest node value `3/2` — an integer column bounded by `3/2` lets the
-node `a` be visited once only, the bound `9` allows the three visits of the exact solution -/
+`9`, where the explicit expansion caps it at the floor `1` of the largest node value `3/2` (floored since fix fcfd0b0;
+before, the bound was `3/2` itself, on an integer column the same) — the bound `1` lets the node `a` be visited once only,
+the bound `9` allows the three visits of the exact solution -/
 theorem caps : nxcCapOf (klaecLP inpN) ("a.0", "a.1") = some (some 9) ∧
-    nxcCapOf (klaecLP inpX) ("a.0", "a.1") = some (some (3/2)) ∧
+    nxcCapOf (klaecLP inpX) ("a.0", "a.1") = some (some 1) ∧
     nxcCapOf (kmpecLP inpN) ("a.0", "a.1") = some (some 9) ∧
-    nxcCapOf (kmpecLP inpX) ("a.0", "a.1") = some (some (3/2)) := by decide +kernel
+    nxcCapOf (kmpecLP inpX) ("a.0", "a.1") = some (some 1) := by decide +kernel
 
 theorem klaec_lp_differs : klaecLP inpN ≠ klaecLP inpX := by
   intro h
